@@ -1,4 +1,4 @@
-\* C20 quick, export: every memory-tier behaviour of 4 calls (2 blobs, 2 coordinates, retention index)
+\* C20 quick, export: every memory-tier behaviour of 4 calls (2 blobs, 2 coordinates, retention index); get/has/load not explored as own steps (every read is part of the observable state after every step)
 SPECIFICATION Spec
 CONSTANTS
   Blobs = {"a", "b"}
@@ -9,7 +9,7 @@ CONSTANTS
   Size <- MC_Size
   MaxBytes = 2
   MemFastPath = FALSE
-  ReadOps = TRUE
+  ReadOps = FALSE
   WithIndex = TRUE
   Export = TRUE
   MaxLen = 4
